@@ -288,4 +288,148 @@ void h(void) {
                     solver="cadical", defines=["SCALAR_FLOAT"], timeout=900, functions=[DH + ":" + x for x in ("update_block", "compute_reflector", "apply_PX", "apply_XP")],
                     expect_classes=["loop_invariant_step", "Eigen block assertion", "block access", "dsqr.update_block (all n)"],
                     note="UNBOUNDED in n and in the block [il, iu] on the cursor model; stable_norm3 / stable_scaling / hypot replaced by their frames (values do not enter any claim)")]
+    # apply_YQ: Y * P0 * P1 * ... on the cursor model, every row count and every n >= 2
+    f = X.locate(DH, "apply_YQ", cls="DoubleShiftQR")
+
+    def pf_yq(b, R):
+        b = R.call_rewrite("yblock", r"\bY\.block(?=\()", lambda m, a: "BLOCKC(Y, %s)" % ", ".join(a) if len(a) == 4 else None, b, min_fires=2)
+        b = R.sub("yrows", r"\bY\.rows\(\)", "Y->rows", b, min_fires=1)
+        return pf(b, R)
+    t, R = cgen.emit(f, "apply_YQ", ret_c="void", self_type="DSC", self_name="D", members=mem, param_types={"Y": "Mat *"}, post_fn=pf_yq,
+                     loop_contracts={0: "__CPROVER_assigns(i, Y->cell, D->ucol[0], D->ucol[1], D->ucol[2]) __CPROVER_loop_invariant(0 <= i && (i <= n2 || n2 < 0)) __CPROVER_decreases(n2 - i)"})
+    report["DoubleShiftQR::apply_YQ(cursor)"] = R.fired
+    h_yq = r'''
+#line 1 "harness/kernels.dsqr.apply_YQ.unbounded"
+void h(void) {
+  DSC Dv; DSC *D = &Dv; D->m_n = nondet_Index(); __CPROVER_assume(2 <= D->m_n && D->m_n <= NMAXD); D->m_mat_H = MAT_NEW(D->m_n, D->m_n);
+  D->m_ref_u_cols = D->m_n; D->m_ref_nr = malloc(D->m_n); __CPROVER_assume(D->m_ref_nr != NULL); D->m_computed = nondet_bool();
+  Index nrow = nondet_Index(); __CPROVER_assume(0 <= nrow && nrow <= NMAXD); Mat Yv = MAT_NEW(nrow, D->m_n); Mat *Y = &Yv;
+  _Bool was = D->m_computed; verif_exc = 0;
+  apply_YQ(D, Y);
+  __CPROVER_assert((verif_exc != 0) == !was, "dsqr.apply_YQ (all n): throws exactly when compute() has not been called");
+  CANARY();
+}
+'''
+    groups.append(Group("dsqr.apply_YQ.unbounded", kernels.HQS_TYPES + DSC_TYPES + parts["xp"] + t + h_yq, "h", loop_contracts=True, solver="cadical", defines=["SCALAR_FLOAT"], timeout=900,
+                        functions=[DH + ":apply_YQ", DH + ":apply_XP"], expect_classes=["loop_invariant_step", "Eigen block assertion", "block access", "dsqr.apply_YQ (all n)"],
+                        note="UNBOUNDED in n (>= 2) and in the number of rows of Y, for ANY reflector record (apply_XP guards every third-column access by nr / ncol itself)"))
     return groups
+
+
+def dsqr_compute_unbounded(report):
+    """DoubleShiftQR::compute for EVERY n on the cursor model: the deflation scan (diagonal cursor walk, std::fill of the entries below the sub-diagonal),
+    the block list zero_ind (strictly increasing, from 0 to n), one update_block per block with its precondition 0 <= start <= end < n, and the resulting
+    reflector record: nr[q] in {1,2,3} and q + nr[q] <= n at EVERY position (what apply_QtY / apply_YQ rely on).  update_block is replaced by its contract
+    (proved for every n in dsqr.update_block.unbounded)."""
+    mem = ["m_near_0", "m_eps", "m_n", "m_mat_H", "m_shift_s", "m_shift_t", "m_ref_u", "m_ref_nr", "m_computed"]
+    HM = "(&D->m_mat_H)"
+    f = X.locate(DH, "compute", cls="DoubleShiftQR")
+    pre = [("rows", r"m_n = mat\.rows\(\);", "m_n = rows;", {"max": 1}), ("cols", r"mat\.cols\(\)", "cols", {"max": 1}),
+           ("resize-H", r"m_mat_H\.resize\(m_n, m_n\);", "m_mat_H = MAT_NEW(m_n, m_n);", {"max": 1}),
+           ("resize-u", r"m_ref_u\.resize\(3, m_n\);", "m_ref_u_cols = m_n;", {"max": 1}),
+           ("resize-nr", r"m_ref_nr\.resize\(m_n\);", "m_ref_nr = malloc(m_n); __CPROVER_assume(D->m_ref_nr != NULL);", {"max": 1}),
+           ("copy", r"m_mat_H\.noalias\(\) = mat;", "MAT_TOUCH(D->m_mat_H);", {"max": 1}),
+           ("zi-decl", r"std::vector<int> zero_ind;\s*zero_ind\.reserve\(m_n - 1\);", "int *zero_ind = malloc((m_n + 1) * sizeof(int)); __CPROVER_assume(zero_ind != NULL); Index zero_n = 0;", {"max": 1}),
+           ("zi-push", r"zero_ind\.push_back\(([^;]+)\);", r"{ __CPROVER_assert(zero_n < D->m_n + 1, @Q@std::vector push_back: at most n + 1 block boundaries@Q@); zero_ind[zero_n++] = (int)(\1); }", {"min": 3, "max": 3}),
+           ("zi-size", r"zero_ind\.size\(\)", "zero_n", {"max": 1}),
+           ("Hii-decl", r"Scalar\* Hii = m_mat_H\.data\(\);", "Cur Hii = CUR(%s, 0, 0);" % HM, {"max": 1}),
+           ("Hii-reset", r"\bHii = m_mat_H\.data\(\);", "Hii = CUR(%s, 0, 0);" % HM, {"max": 1}),
+           ("Hii-step", r"\bHii \+= \(m_n \+ 1\)", "Hii = CUR_DIAG(Hii)", {"min": 2, "max": 2}),
+           ("Hii-next", r"\bHii\[m_n \+ 1\]", "(*CUR_AT(%s, CUR_COLS(Hii, 1), 1, 0))" % HM, {"min": 2, "max": 2}),
+           ("Hii-w0", r"\bHii\[(\d)\] = 0;", r"(void)CUR_AT(%s, Hii, \1, 2);" % HM, {"min": 2, "max": 2}),
+           ("Hii-read", r"\bHii\[(\d)\]", r"(*CUR_AT(%s, Hii, \1, 0))" % HM, {"min": 4}),
+           ("fill", r"std::fill\(Hii \+ ([^,]+), Hii \+ ([^,]+), Scalar\(0\)\);", r"CUR_FILL0(%s, Hii, \1, \2);" % HM, {"max": 1}),
+           ("inst", r"const Index start = zero_ind\[i\];", "INSTANTIATE_MONO(i); const Index start = zero_ind[i];", {"max": 1}),
+           ("ub", r"(?<![\w>.])update_block\(start, end\);", "update_block(D, start, end);", {"max": 1})]
+    MONO = "(!(0 <= g_s && g_s + 1 < zero_n) || zero_ind[g_s] < zero_ind[g_s + 1])"
+    RANGE = "(!(0 <= g_s && g_s < zero_n) || (0 <= zero_ind[g_s] && zero_ind[g_s] <= %s))"
+    lc = {0: "__CPROVER_assigns(i, Hii, D->m_mat_H.cell, g_zero, zero_n, __CPROVER_object_whole(zero_ind)) "
+             "__CPROVER_loop_invariant(0 <= i && i <= D->m_n - 1 && Hii.r == i && Hii.c == i && 1 <= zero_n && zero_n <= i + 1 && zero_ind[0] == 0 && zero_ind[zero_n - 1] <= i && %s && %s) "
+             "__CPROVER_decreases(D->m_n - 1 - i)" % (MONO, RANGE % "i"),
+          1: "__CPROVER_assigns(i, D->m_mat_H.cell, D->ucol[0], D->ucol[1], D->ucol[2], __CPROVER_object_whole(D->m_ref_nr)) "
+             "__CPROVER_loop_invariant(0 <= i && i <= len && (!(0 <= g_q && g_q < zero_ind[i] && g_q < D->m_n) || NR_OK(D, g_q, D->m_n))) __CPROVER_decreases(len - i)",
+          2: "__CPROVER_assigns(i, Hii, D->m_mat_H.cell, g_zero) __CPROVER_loop_invariant(0 <= i && i <= D->m_n - 1 && Hii.r == i && Hii.c == i) __CPROVER_decreases(D->m_n - 1 - i)"}
+    late = [("after-last-push", r"(\{ __CPROVER_assert\(zero_n < D->m_n \+ 1[^}]*\(int\)\(D->m_n\); \})",
+             r"\1 __CPROVER_assert(%s, @Q@dsqr.compute (all n): block boundaries strictly increasing@Q@); __CPROVER_assert(%s, @Q@dsqr.compute (all n): block boundaries within 0..n@Q@); "
+             r"__CPROVER_assert(zero_ind[0] == 0 && zero_ind[zero_n - 1] == D->m_n && zero_n >= 2, @Q@dsqr.compute (all n): the blocks partition 0..n-1 (first starts at 0, last ends at n-1, consecutive)@Q@);" % (MONO, RANGE % "D->m_n"), {"max": 1})]
+
+    def pf(b, R):
+        for r in late:
+            b = R.sub("late:" + r[0], r[1], r[2], b, flags=re.S, min_fires=1, max_fires=1)
+        return b
+    spec_pre = "1 <= rows && rows <= NMAXD && 0 <= cols && cols <= NMAXD && D->m_near_0 > (Scalar)0 && D->m_eps > (Scalar)0 && 0 <= g_q && g_q <= NMAXD && 0 <= g_s && g_s <= NMAXD"
+    t, R = cgen.emit(f, "ds_compute", ret_c="void", self_type="DSC", self_name="D", members=mem + ["m_ref_u_cols"], param_types={"mat": "Index", "s": "Scalar", "t": "Scalar"},
+                     pre_rules=pre, post_fn=pf, loop_contracts=lc)
+    t = t.replace("DSC *D, Index mat, Scalar s, Scalar t", "DSC *D, Index rows, Index cols, Scalar s, Scalar t")
+    report["DoubleShiftQR::compute(cursor)"] = R.fired
+    stub = r'''
+Index g_s;
+static Cur CUR_DIAG(Cur k) { k.r++; k.c++; return k; }
+/* forall-elimination of the proved block-boundary facts (asserted for the Skolem position g_s right after the list is complete) at index e */
+#define INSTANTIATE_MONO(e) __CPROVER_assume(0 <= zero_ind[e] && zero_ind[e] < zero_ind[(e) + 1] && zero_ind[(e) + 1] <= D->m_n)
+/* contract of update_block, proved for every n in dsqr.update_block.unbounded */
+static void update_block(DSC *D, Index il, Index iu)
+{
+  __CPROVER_assert(0 <= il && il <= iu && iu < D->m_n, "precondition of update_block at its call site: 0 <= il <= iu < n");
+  __CPROVER_assert(DS_INV(D), "precondition of update_block: object invariant (n x n matrix, n reflector slots, near_0 > 0)");
+  unsigned char keep = (0 <= g_q && g_q < D->m_n) ? D->m_ref_nr[g_q] : 0;
+  __CPROVER_havoc_object(D->m_ref_nr); D->m_mat_H.cell = nondet_Scalar();
+  if (0 <= g_q && g_q < D->m_n) { if (il <= g_q && g_q <= iu) __CPROVER_assume(NR_OK(D, g_q, iu + 1)); else D->m_ref_nr[g_q] = keep; }
+}
+'''
+    h = r'''
+#line 1 "harness/kernels.dsqr.compute.unbounded"
+void h(void) {
+  DSC Dv; DSC *D = &Dv; D->m_n = nondet_Index(); D->m_mat_H = MAT_NEW(0, 0); D->m_ref_u_cols = 0; D->m_ref_nr = malloc(1); D->m_computed = 0;
+  D->m_near_0 = nondet_Scalar(); D->m_eps = nondet_Scalar();
+  Index rows = nondet_Index(), cols = nondet_Index(); Scalar s = nondet_Scalar(), t = nondet_Scalar();
+  g_q = nondet_Index(); g_s = nondet_Index();
+  __CPROVER_assume(SPEC_PRE);
+  verif_exc = 0;
+  ds_compute(D, rows, cols, s, t);
+  if (rows != cols) __CPROVER_assert(verif_exc == EXC_invalid_argument && !D->m_computed, "dsqr.compute (all n): non-square input -> invalid_argument, nothing marked computed");
+  else {
+    __CPROVER_assert(verif_exc == 0 && D->m_computed && D->m_n == rows, "dsqr.compute (all n): computed");
+    __CPROVER_assert(!(0 <= g_q && g_q < rows) || NR_OK(D, g_q, rows), "dsqr.compute (all n): every position carries a reflector mark nr in {1,2,3} with q + nr[q] <= n (apply_QtY / apply_YQ stay in bounds)");
+  }
+  CANARY();
+}
+'''.replace("SPEC_PRE", spec_pre)
+    return [Group("dsqr.compute.unbounded", kernels.HQS_TYPES + DSC_TYPES + stub + t + h, "h", loop_contracts=True, solver="cadical", defines=["SCALAR_FLOAT"], timeout=900,
+                  functions=[DH + ":compute"], expect_classes=["loop_invariant_step", "dsqr.compute (all n)", "precondition of update_block", "cursor access"],
+                  note="UNBOUNDED in n on the cursor model; update_block replaced by its proved contract; block-boundary facts are proved for a Skolem position and instantiated at the loop index")]
+
+
+def hessqr_apply_YQ_unbounded(report):
+    """UpperHessenbergQR::apply_YQ (the variant restart() calls; inherited by TridiagQR) on the cursor model: memory safety and frame for EVERY n and every
+    number of rows of Y.  (That the values are exactly Y * G_0 * ... * G_{n-2} is the bounded hessqr.apply_YQ.n<N>.rows<R> groups.)"""
+    QH = kernels.QH
+    mem = ["m_n", "m_shift", "m_rot_cos", "m_rot_sin", "m_computed", "m_mat_R"]
+    f = X.locate(QH, "apply_YQ", cls="UpperHessenbergQR")
+    pre = [("rows", r"Y\.rows\(\)", "Y->rows", {"max": 1}), ("cs", r"\b(m_rot_cos|m_rot_sin)\.coeff\(i\)", r"\1[i]", {"min": 2, "max": 2}),
+           ("decl", r"Scalar \*Y_col_i, \*Y_col_i1;", "Cur Y_col_i, Y_col_i1;", {"max": 1}),
+           ("col", r"&Y\.coeffRef\(([^,()]+), ([^()]+)\)", r"CUR(Y, \1, \2)", {"min": 2, "max": 2}),
+           ("write", r"\b(Y_col_i1?)\[(\w+)\] = ([^;]+);", r"*CUR_AT(Y, \1, \2, 1) = \3;", {"min": 2, "max": 2}),
+           ("read", r"\b(Y_col_i1?)\[(\w+)\]", r"(*CUR_AT(Y, \1, \2, 0))", {"min": 3})]
+    lc = {0: "__CPROVER_assigns(i, Y_col_i, Y_col_i1, Y->cell, g_zero) __CPROVER_loop_invariant(0 <= i && (i <= n1 || n1 < 0)) __CPROVER_decreases(n1 - i)",
+          1: "__CPROVER_assigns(j, Y->cell, g_zero) __CPROVER_loop_invariant(0 <= j && j <= nrow) __CPROVER_decreases(nrow - j)"}
+    t, R = cgen.emit(f, "hqs_apply_YQ", ret_c="void", self_type="HQS", self_name="Q", members=mem, param_types={"Y": "Mat *"}, pre_rules=pre, loop_contracts=lc)
+    report["UpperHessenbergQR::apply_YQ(cursor)"] = R.fired
+    h = r'''
+#line 1 "harness/kernels.hessqr.apply_YQ.unbounded"
+void h(void) {
+  HQS Qv; HQS *Q = &Qv; Q->m_n = nondet_Index(); __CPROVER_assume(1 <= Q->m_n && Q->m_n <= NMAX); Q->m_rot_cos = VEC_NEW(Q->m_n - 1); Q->m_rot_sin = VEC_NEW(Q->m_n - 1);
+  Q->m_mat_R = MAT_NEW(Q->m_n, Q->m_n); Q->m_computed = nondet_bool();
+  Index nrow = nondet_Index(); __CPROVER_assume(1 <= nrow && nrow <= NMAX);   /* Y has at least one row: &Y.coeffRef(0, i) is formed unconditionally (Eigen index assertion for an empty Y) */
+  Mat Yv = MAT_NEW(nrow, Q->m_n); Mat *Y = &Yv;
+  Index q = nondet_Index(); __CPROVER_assume(0 <= q && q < Q->m_n - 1); Scalar c_q = Q->m_rot_cos[q], s_q = Q->m_rot_sin[q];
+  _Bool was = Q->m_computed; verif_exc = 0;
+  hqs_apply_YQ(Q, Y);
+  __CPROVER_assert((verif_exc != 0) == !was, "hessqr.apply_YQ (all n): throws exactly when compute() has not been called");
+  __CPROVER_assert((Q->m_rot_cos[q] == c_q || c_q != c_q) && (Q->m_rot_sin[q] == s_q || s_q != s_q), "hessqr.apply_YQ (all n): the stored rotations are not modified");
+  CANARY();
+}
+'''
+    return [Group("hessqr.shape.apply_YQ", kernels.HQS_TYPES + t + h, "h", loop_contracts=True, solver="cadical", defines=["SCALAR_DOUBLE"], timeout=900,
+                  functions=[QH + ":UpperHessenbergQR::apply_YQ"], expect_classes=["loop_invariant_step", "cursor access", "hessqr.apply_YQ (all n)"],
+                  note="UNBOUNDED in n and in the rows of Y on the cursor model: every Y_col_i[j] / Y_col_i1[j] access inside columns i, i+1 of Y")]
